@@ -1020,6 +1020,9 @@ class LegacyMul(GroupContract):
     def apply(self, ex, vals, line):
         if getattr(ex, "group", None) is not None and getattr(ex, "field", None) is None:
             return self.group_apply(ex, world(ex), vals, line)
+        F = getattr(ex, "field", None)
+        if F is not None and E.legacy_scalar_applicable(ex, vals):
+            return E.LEGACY_SCALAR_APPLY["__mul__"](ex, F, vals, line)         # scalar mode over the legacy class
         from pyvc.interp import FuncRef
         return ex.inline(FuncRef(self.qual), [vals["self"], vals["other"]], {}, line)
 
